@@ -23,6 +23,7 @@ import openmdao.api as om
 from . import term as S
 from . import npshim
 from . import spshim
+from . import helpers
 from .term import RF, OutsideFragment
 
 warnings.filterwarnings("ignore")
@@ -55,6 +56,12 @@ def patched(symbolic_pi=True):
             if n in d and not getattr(d[n], "_oasverif_stub", False):
                 saved.append((d, n, d[n]))
                 d[n] = getattr(spshim, n)
+        if helpers.ACTIVE:
+            for n, v in list(d.items()):
+                hit = helpers.ACTIVE.get(id(v))
+                if hit is not None and hit[0] is v:
+                    saved.append((d, n, v))
+                    d[n] = hit[1]
     try:
         yield shim
     finally:
